@@ -1,0 +1,11 @@
+//go:build verif
+
+package backend
+
+// Assumed contracts for the log callbacks (function-typed struct fields): they do not touch compiler state.
+
+//@ extern (LogFunc) Info
+//@ extern (LogFunc) Infof
+//@ extern (LogFunc) Warn
+//@ extern (LogFunc) Warnf
+//@ extern (LogFunc) MultiWarn
